@@ -482,6 +482,10 @@ pub struct WorldCfg {
     /// kinds offered for cut_nodes (empty = all five); `cut_eq`: fn/boxed cutoffs compare with ==
     pub cut_kinds: Vec<CutKind>,
     pub cut_eq: bool,
+    /// actions applied before the counted history starts (warm start)
+    pub warm: Vec<Action>,
+    /// vars the history may write (empty = all)
+    pub writable: Vec<usize>,
     pub len: usize,
     pub ops: Ops,
     pub mon: Monitors,
@@ -1611,6 +1615,9 @@ impl World {
         }
         if o.write {
             for (i, _) in &self.vars {
+                if !self.cfg.writable.is_empty() && !self.cfg.writable.contains(i) {
+                    continue;
+                }
                 v.push(Action::Write(*i));
                 if o.write_same {
                     v.push(Action::WriteSame(*i));
@@ -2501,6 +2508,9 @@ fn make_rhs(sh: &Rc<Shared>, ws: &WeakState, bind: usize, branch: bool, gen: u32
 pub fn run_world(cfg: &WorldCfg) {
     let mut w = ManuallyDrop::new(World::new(cfg));
     let r = catch(|| {
+        for a in &cfg.warm {
+            w.apply(a);
+        }
         for _ in 0..cfg.len {
             if w.poisoned {
                 break;
